@@ -388,3 +388,118 @@ Proof.
     reflexivity.
   - destruct HR1 as [_ [Hr1 _]]. apply Hr1.
 Qed.
+
+(* ---- HoistSetupCallsIntoConditionals ---------------------------------------------------------------- *)
+Lemma find_if_split r : forall b pre0 s between, find_if r b = Some (pre0, s, between) -> b = pre0 ++ s :: between.
+Proof.
+  induction b as [|x b IH]; intros pre0 s between H; [discriminate|].
+  assert (Hgen : match find_if r b with Some (x0, i, y) => Some (x :: x0, i, y) | None => None end
+                 = Some (pre0, s, between) -> x :: b = pre0 ++ s :: between).
+  { destruct (find_if r b) as [[[x0 i] y]|] eqn:E; [|discriminate]. intros H'. inversion H'; subst.
+    simpl. f_equal. apply IH. reflexivity. }
+  destruct x; try (exact (Hgen H)).
+  simpl in H. destruct (mem_nat r (map fst results)).
+  - inversion H; subst. reflexivity.
+  - exact (Hgen H).
+Qed.
+
+Lemma gok_block_app G b1 b2 : gok_block G (b1 ++ b2) = gok_block G b1 && gok_block G b2.
+Proof. induction b1 as [|s b1 IH]; [reflexivity|]. simpl. rewrite IH. rewrite andb_assoc. reflexivity. Qed.
+
+Lemma write_fields_env_ext (e e' : envT) fs r f :
+  (forall g v, In (g, v) fs -> e v = e' v) -> write_fields e fs r f = write_fields e' fs r f.
+Proof.
+  intros H. rewrite !write_fields_spec. destruct (last_binding f fs) as [v|] eqn:E; [|reflexivity].
+  exact (H f v (last_binding_In2 _ _ _ E)).
+Qed.
+
+Section Hoist.
+Variable orc : oracle.
+Variable G : list val.
+
+(* one branch of the rewritten scf.if against the same branch of the original *)
+Lemma hoist_branch a fs (br : block) (yv : list val) (yt o1 : val) (rs : list (val * ty)) m1 m1' :
+  gok_block G br = true -> isg G yt = true -> isg G o1 = true ->
+  R m1 m1' -> Zi G m1' ->
+  let mb := exec_block orc br m1 in
+  let mb' := exec_block orc (br ++ [SSetup a o1 (Some yt) fs]) m1' in
+  let m2 := set_env mb (bind_list (map fst rs) (map (env mb) yv) (env mb)) in
+  let m2' := set_env mb' (bind_list (map fst rs) (map (env mb') (map (rn yt o1) yv)) (env mb')) in
+  Ra a m2 m2' /\ (forall f, regs m2' a f = write_fields (env mb) fs (regs m2 a) f).
+Proof.
+  intros Hg Hyt Ho1 HR HZ mb mb' m2 m2'.
+  pose proof (same_block orc br m1 m1' HR) as HRb.
+  pose proof (Zi_block orc G br Hg m1' HZ) as HZb.
+  assert (Hmb' : mb' = exec_setup a fs (exec_block orc br m1')).
+  { unfold mb'. rewrite exec_block_app. reflexivity. }
+  set (mr := exec_block orc br m1') in *.
+  destruct HRb as [He [Hr [Hn Ht]]]. fold mb in He, Hr, Hn, Ht.
+  assert (Henv' : env mb' = env mb) by (rewrite Hmb'; simpl; exact He).
+  assert (Hmap : map (env mb') (map (rn yt o1) yv) = map (env mb) yv).
+  { rewrite Henv'. rewrite <- He. apply (map_read_f yt o1 mr yv).
+    unfold I. rewrite (HZb yt Hyt), (HZb o1 Ho1). reflexivity. }
+  unfold m2, m2'. rewrite Hmap, Henv'. split.
+  - repeat split; simpl; try (rewrite Hmb'; simpl; assumption).
+    intros b f Hb. rewrite Hmb'. simpl. rewrite upd_other by exact Hb. apply Hr.
+  - intros f. simpl. rewrite Hmb'. simpl. rewrite upd_same. rewrite He.
+    apply write_fields_ext. intros g. apply Hr.
+Qed.
+
+Lemma hoist_g_here_sound o1 o2 tg b b' :
+  hoist_g_here G o1 o2 tg b = Some b' -> gok_block G b = true ->
+  forall m m', R m m' -> Zi G m' -> R (exec_block orc b m) (exec_block orc b' m').
+Proof.
+  unfold hoist_g_here. intros H Hgb m m' HR HZ'.
+  destruct (find_setup tg b) as [[[pre [[[a o] i] fs]] post]|] eqn:Ef; [|discriminate].
+  destruct i as [r|]; [|discriminate].
+  destruct (find_if r pre) as [[[pre0 sif] between]|] eqn:Ei; [|discriminate].
+  destruct sif as [| | | | | | |c rs th thy el ely]; try discriminate.
+  destruct (index_of r (map fst rs)) as [idx|]; [|discriminate].
+  destruct (existsb (fun fv => mem_nat (snd fv) (flat_map top_defs between)) fs); [discriminate|].
+  destruct (existsb (fun s => stmt_launches_on r s) between); [discriminate|].
+  destruct (existsb (fun s => negb (is_launch s) && stmt_launches_on r s) post); [discriminate|].
+  set (yt := nth idx thy 0%nat) in *. set (ye := nth idx ely 0%nat) in *.
+  destruct (quiet_block a between
+            && vals_avoid fs (stmt_binds (SIf c rs th thy el ely) ++ block_binds between)
+            && isg G yt && isg G ye && isg G o1 && isg G o2) eqn:Eg; [|discriminate].
+  inversion H; subst b'. clear H.
+  repeat (apply andb_true_iff in Eg; destruct Eg as [Eg ?]).
+  rename Eg into Hq. rename H3 into Hva. rename H2 into Hyt. rename H1 into Hye. rename H0 into Ho1. rename H into Ho2.
+  apply find_setup_split in Ef. apply find_if_split in Ei. subst b pre.
+  rewrite <- !app_assoc in Hgb |- *. cbn [app] in Hgb |- *.
+  rewrite gok_block_app in Hgb. apply andb_true_iff in Hgb. destruct Hgb as [Hg0 Hgb].
+  cbn [gok_block] in Hgb. apply andb_true_iff in Hgb. destruct Hgb as [Hgif _].
+  rewrite gok_stmt_if in Hgif. repeat (apply andb_true_iff in Hgif; destruct Hgif as [Hgif ?]).
+  rename H0 into Hgth. rename H into Hgel.
+  rewrite !exec_block_app. cbn [exec_block]. rewrite !exec_block_app. cbn [exec_block].
+  pose proof (same_block orc pre0 m m' HR) as HR1.
+  pose proof (Zi_block orc G pre0 Hg0 m' HZ') as HZ1'.
+  set (m1 := exec_block orc pre0 m) in *. set (m1' := exec_block orc pre0 m') in *.
+  apply same_block.
+  (* the conditional *)
+  rewrite !exec_stmt_if. unfold exec_if. pose proof HR1 as [He1 _]. rewrite He1.
+  assert (Hfin : forall (m2 m2' : mstate) (eb : envT),
+            Ra a m2 m2' -> (forall f, regs m2' a f = write_fields eb fs (regs m2 a) f) ->
+            (forall g v, In (g, v) fs -> env m2 v = eb v) ->
+            R (exec_stmt orc (SSetup a o (Some r) fs) (exec_block orc between m2)) (exec_block orc between m2')).
+  { intros m2 m2' eb HRa Hregs Henv.
+    pose proof (quiet_Ra_block orc a between Hq _ _ HRa) as [He3 [Hn3 [Ht3 Hr3]]].
+    cbn [exec_stmt]. unfold exec_setup. repeat split; simpl; try assumption.
+    intros b f. unfold upd. destruct (Nat.eqb b a) eqn:Eb; [|apply Hr3; apply Nat.eqb_neq; exact Eb].
+    apply Nat.eqb_eq in Eb. subst b.
+    rewrite (quiet_regs_block orc a between Hq m2' f). rewrite Hregs.
+    transitivity (write_fields (env (exec_block orc between m2)) fs (regs m2 a) f).
+    - apply write_fields_env_ext. intros g v Hin. rewrite <- (Henv g v Hin).
+      symmetry. apply (env_frame_block orc between).
+      intros Hb. apply (vals_avoid_spec _ _ g v Hva Hin). apply in_app_iff. right. exact Hb.
+    - apply write_fields_ext. intros g. symmetry. apply (quiet_regs_block orc a between Hq). }
+  assert (Hrsb : forall g v, In (g, v) fs -> ~ In v (map fst rs)).
+  { intros g v Hin Hb. apply (vals_avoid_spec _ _ g v Hva Hin). apply in_app_iff. left.
+    rewrite stmt_binds_if. apply in_app_iff. left. exact Hb. }
+  destruct (env m1 c =? 0).
+  - destruct (hoist_branch a fs el ely ye o2 rs m1 m1' Hgel Hye Ho2 HR1 HZ1') as [HRa Hregs].
+    apply (Hfin _ _ _ HRa Hregs). intros g v Hin. simpl. apply bind_list_other. exact (Hrsb g v Hin).
+  - destruct (hoist_branch a fs th thy yt o1 rs m1 m1' Hgth Hyt Ho1 HR1 HZ1') as [HRa Hregs].
+    apply (Hfin _ _ _ HRa Hregs). intros g v Hin. simpl. apply bind_list_other. exact (Hrsb g v Hin).
+Qed.
+End Hoist.
